@@ -45,9 +45,9 @@ package variables
 //@   ensures #view forall k string :: (cdom[result][k] <==> (k in values)) && ((k in values) ==> cval[result][k] == boxstr(values[k]))
 //@   ensures #others-untouched forall c Container :: c != result ==> cdom[c] == old(cdom[c]) && cval[c] == old(cval[c])
 //@ func NewVariables
-//@   modifies cdom, cval
+//@   nomod
 //@   ensures result != nil && fresh(result) && allocated(result)
-//@   ensures forall c Container :: unboxptr(c) != result ==> cdom[c] == old(cdom[c]) && cval[c] == old(cval[c])
+//@   ensures #empty forall k string :: !cdom[iface(result)][k]
 
 // ---- the sync.Map based implementation. Set / Get / Has / Map are thin wrappers around sync.Map
 // and carry ASSUMED contracts over the view of iface(vars); Merge, With and FromMap are VERIFIED
